@@ -1,5 +1,7 @@
 from abc import ABC, abstractmethod
 import getpass
+import hashlib
+import io
 import sys, os, pickle
 import tempfile
 import types
@@ -248,6 +250,10 @@ class LarkOptions(Serialize):
 # These options are only used outside of `load_grammar`.
 _LOAD_ALLOWED_OPTIONS = {'postlex', 'transformer', 'lexer_callbacks', 'use_bytes', 'debug', 'g_regex_flags', 'regex', 'propagate_positions', 'tree_class', '_plugins'}
 
+def _bytes_digest(data: bytes) -> bytes:
+    return hashlib.sha256(data, usedforsecurity=False).hexdigest().encode('utf8')
+
+
 _VALID_PRIORITY_OPTIONS = ('auto', 'normal', 'invert', None)
 _VALID_AMBIGUITY_OPTIONS = ('auto', 'resolve', 'explicit', 'forest')
 
@@ -373,12 +379,16 @@ class Lark(Serialize, Generic[_Return_T]):
                         # Remove options that aren't relevant for loading from cache
                         for name in (set(options) - _LOAD_ALLOWED_OPTIONS):
                             del options[name]
-                        file_sha256 = f.readline().rstrip(b'\n')
-                        cached_used_files = pickle.load(f)
-                        if file_sha256 == cache_sha256.encode('utf8') and verify_used_files(cached_used_files):
-                            cached_parser_data = pickle.load(f)
-                            self._load(cached_parser_data, **options)
-                            return
+                        file_sha256, _, payload_sha256 = f.readline().rstrip(b'\n').partition(b' ')
+                        payload = f.read()
+                        # The second digest covers the pickled payload, so a damaged file is rebuilt, not unpickled
+                        if file_sha256 == cache_sha256.encode('utf8') and payload_sha256 == _bytes_digest(payload):
+                            payload_f = io.BytesIO(payload)
+                            cached_used_files = pickle.load(payload_f)
+                            if verify_used_files(cached_used_files):
+                                cached_parser_data = pickle.load(payload_f)
+                                self._load(cached_parser_data, **options)
+                                return
                 except FileNotFoundError:
                     # The cache file doesn't exist; parse and compose the grammar as normal
                     pass
@@ -484,9 +494,12 @@ class Lark(Serialize, Generic[_Return_T]):
             try:
                 with FS.open(cache_fn, 'wb') as f:
                     assert cache_sha256 is not None
-                    f.write(cache_sha256.encode('utf8') + b'\n')
-                    pickle.dump(used_files, f)
-                    self.save(f, _LOAD_ALLOWED_OPTIONS)
+                    payload_f = io.BytesIO()
+                    pickle.dump(used_files, payload_f)
+                    self.save(payload_f, _LOAD_ALLOWED_OPTIONS)
+                    payload = payload_f.getvalue()
+                    f.write(cache_sha256.encode('utf8') + b' ' + _bytes_digest(payload) + b'\n')
+                    f.write(payload)
             except IOError as e:
                 logger.exception("Failed to save Lark to cache: %r.", cache_fn, e)
 
